@@ -442,6 +442,11 @@ func normalizeDomainpart(domainpart string) (string, error) {
 		return domainpart, err
 	}
 
+	// The mapping above turns other label separators (such as U+3002) into dots
+	// and leaves a second trailing dot alone; the canonical form must not end
+	// with a label separator or it would not survive being parsed again.
+	domainpart = strings.TrimRight(domainpart, ".")
+
 	if l := len(domainpart); l < 1 || l > 1023 {
 		return domainpart, errInvalidDomainLen
 	}
